@@ -496,3 +496,15 @@ FAMILIES.append(
            bounds='4 connective shapes over task.done / a flag evaluated before and after a '
                   'synchronous change inside one turn; 4 stored shapes over two flags evaluated at '
                   'the same (time, turn) of two consecutive simulations'))
+
+
+def _reuse_runs(E, **kw):
+    from .c07 import fam_reuse_runs
+    return fam_reuse_runs(E, **kw)
+
+
+FAMILIES.append(
+    Family('time_atoms_reuse_runs', _reuse_runs, quick=dict(kinds=(1, 2)), thorough=dict(kinds=(1, 2), real=True),
+           reach=['second-run', 'second-run-starts-before-the-date', 'first-simulation-aborted'],
+           bounds='one stored `time == u` / `time >= u` atom awaited (or used by until) in two '
+                  'consecutive simulations with symbolic start times (harness shared with C01 / C07)'))
